@@ -2,15 +2,17 @@ import FeatherModel.Model.TotalWrap
 
 /-!
 # C16 — `read_element_value_unnamed` / `read_element_values_named` / `read_element_values_unnamed`
-(`duke/src/class_reader.rs`) with an explicit stack
+(`duke/src/class_reader.rs`)
 
 The three Rust functions recurse into each other once per nesting level of an `element_value` (`[` array or `@`
-annotation).  `gas` is the number of nesting levels the stack can still hold: `readValue 0` is the stack overflow
-(`panic Sites.stackElementValue`).  `level` is the level being entered (recorded in the account), the result is the
-nesting depth of the value that was read (what the harness computes from the tree).
+annotation).  Since 835fdd2 they carry `depth` and `read_element_values_*` starts with
+`depth > MAX_ELEMENT_VALUE_DEPTH (= 255) => bail!`; a nested list is read at `depth + 1`.  The model recurses structurally
+on `rem = 255 - depth`, the number of further levels allowed: opening a `[` or `@` with `rem = 0` is the `bail!`.
+A top-level value (AnnotationDefault, or a value of a top-level annotation) is read at depth 0, `rem = maxDepth`.
+The result is the nesting depth of the value that was read (what the harness computes from the tree).
 
-Constant indices are looked up in the wrapper pool (`Total.Wrap`).  The recursion is structural in `gas`: the loops
-over the `u16` counts are the generic `iterMax` applied to the function one level down.
+Constant indices are looked up in the wrapper pool (`Total.Wrap`).  The loops over the `u16` counts are the generic
+`iterMax` applied to the function one level down.
 -/
 
 namespace Total.Anno
@@ -35,42 +37,53 @@ def constIndex (p : Nat → Bool) : Rd Nat := fun s => do
   guard (p i)
   pure (1, s)
 
-/-- one `element_value` -/
-def readValue : Nat → Nat → Rd Nat
-  | 0, level, _ => do enter level; crash Sites.stackElementValue
-  | gas + 1, level, s => do
-    enter level
-    let (tag, s) ← u8 s
-    if tag = 66 ∨ tag = 67 ∨ tag = 73 ∨ tag = 83 ∨ tag = 90 then constIndex isInt s           -- B C I S Z
-    else if tag = 68 then constIndex isDouble s                                               -- D
-    else if tag = 70 then constIndex isFloat s                                                -- F
-    else if tag = 74 then constIndex isLong s                                                 -- J
-    else if tag = 115 then constIndex (fun i => (getUtf8 i).isSome) s                         -- s
-    else if tag = 101 then do                                                                 -- e
-      let (t, s) ← u16 s
-      guard (getUtf8 t).isSome
-      constIndex (fun i => (getUtf8 i).isSome) s
-    else if tag = 99 then constIndex (fun i => (getUtf8 i).isSome) s                          -- c
-    else if tag = 64 then do                                                                  -- @
-      let (t, s) ← u16 s
-      guard (getUtf8 t).isSome
-      let (n, s) ← u16 s
-      let (d, s) ← iterMax (namedPair (readValue gas (level + 1))) n 0 s
-      pure (1 + d, s)
-    else if tag = 91 then do                                                                  -- [
-      let (n, s) ← u16 s
-      let (d, s) ← iterMax (readValue gas (level + 1)) n 0 s
-      pure (1 + d, s)
-    else fail
+/-- `MAX_ELEMENT_VALUE_DEPTH` -/
+def maxDepth : Nat := 255
 
-/-- `read_element_values_named` at the top of an annotation (level 1 values) -/
-def readPairs (gas : Nat) : Rd Nat := fun s => do
+/-- one `element_value`; `inner` reads a value one level down (`none`: the depth limit is reached) -/
+def readValueWith (inner : Option (Rd Nat)) : Rd Nat := fun s => do
+  let (tag, s) ← u8 s
+  if tag = 66 ∨ tag = 67 ∨ tag = 73 ∨ tag = 83 ∨ tag = 90 then constIndex isInt s           -- B C I S Z
+  else if tag = 68 then constIndex isDouble s                                               -- D
+  else if tag = 70 then constIndex isFloat s                                                -- F
+  else if tag = 74 then constIndex isLong s                                                 -- J
+  else if tag = 115 then constIndex (fun i => (getUtf8 i).isSome) s                         -- s
+  else if tag = 101 then do                                                                 -- e
+    let (t, s) ← u16 s
+    guard (getUtf8 t).isSome
+    constIndex (fun i => (getUtf8 i).isSome) s
+  else if tag = 99 then constIndex (fun i => (getUtf8 i).isSome) s                          -- c
+  else if tag = 64 then do                                                                  -- @
+    let (t, s) ← u16 s
+    guard (getUtf8 t).isSome
+    match inner with
+    | none => fail                                -- `read_element_values_named(.., depth + 1)`: `depth + 1 > 255`
+    | some value => do
+      let (n, s) ← u16 s
+      let (d, s) ← iterMax (namedPair value) n 0 s
+      pure (1 + d, s)
+  else if tag = 91 then                                                                     -- [
+    match inner with
+    | none => fail                                -- `read_element_values_unnamed(.., depth + 1)`
+    | some value => do
+      let (n, s) ← u16 s
+      let (d, s) ← iterMax value n 0 s
+      pure (1 + d, s)
+  else fail
+
+/-- an `element_value` at depth `255 - rem` -/
+def readValue : Nat → Rd Nat
+  | 0 => readValueWith none
+  | rem + 1 => readValueWith (some (readValue rem))
+
+/-- `read_element_values_named(.., 0)` at the top of an annotation -/
+def readPairs : Rd Nat := fun s => do
   let (n, s) ← u16 s
-  iterMax (namedPair (readValue gas 1)) n 0 s
+  iterMax (namedPair (readValue maxDepth)) n 0 s
 
 /-- the `anno` op: the AnnotationDefault body is followed by the `attributes_count = 0` of the wrapper class -/
-def annoOp (gas : Nat) (body : Bytes) : TM Nat := do
-  let (d, _) ← readValue gas 1 (body ++ [0, 0])
+def annoOp (body : Bytes) : TM Nat := do
+  let (d, _) ← readValue maxDepth (body ++ [0, 0])
   pure d
 
 /-- `[`-nesting of depth `d` around an int constant: 3 bytes per level -/
